@@ -937,9 +937,13 @@ func (c *Client) connect() error {
 		break
 
 	case context.Canceled:
-		// Close or Disconnect interrupted dial
-		c.connSem <- previousConn // unlock
-		return ErrClosed
+		if c.ctx.Err() != nil {
+			// Close or Disconnect interrupted dial
+			c.connSem <- previousConn // unlock
+			return ErrClosed
+		}
+		// the Dialer canceled something of its own
+		fallthrough
 
 	default:
 		// ErrDown after failed connect
